@@ -1,8 +1,9 @@
-//@unit parser
-//@property C04 C01
+//@unit substance
+//@property C16 C04
 use vstd::prelude::*;
 use std::ops::{Add, Div, Mul, Neg, Rem, Sub, BitAnd, BitOr, BitXor};
 use std::cmp::Ordering;
+use std::sync::Arc;
 use vstd::std_specs::cmp::{PartialEqSpec, PartialEqSpecImpl, PartialOrdSpec, PartialOrdSpecImpl};
 verus! {
 //@include prelude.rs
@@ -15,17 +16,17 @@ verus! {
 //@include bigrat_ops.rs
 //@include iter.rs
 //@include btree.rs
+//@include btree_iter.rs
 //@include baseunit.rs
 //@include string.rs
-//@include chrono.rs
-//@part numeric
-//@part ast
-//@type Token in core/src/parsing/text_query.rs
-//@type TokenIterator in core/src/parsing/text_query.rs
 //@include stream.rs
-//@include tokstream.rs
-//@part exprctor
-//@part parser
+//@part numeric
+//@part btree_merge
+//@part dims
+//@part number
+//@part substance
+//@part formula
+//@include formula_stream.rs
 //@autoslots
 } // verus!
 fn main() {}
